@@ -16,7 +16,9 @@ def main():
   rep = vlib.Report(PROP, "proof")
   from translate import reportgen
   rgen = reportgen.emit(vlib.GEN)
-  info = vlib.build_obligations(PROP, gen_files=[rgen], extra_files=[os.path.join(vlib.COQ, "theories", "Link", "ReportLink.v")])
+  from translate import lingen
+  lgen = lingen.emit(vlib.GEN)
+  info = vlib.build_obligations(PROP, gen_files=[rgen, lgen], extra_files=[os.path.join(vlib.COQ, "theories", "Link", "ReportLink.v"), os.path.join(vlib.COQ, "theories", "Link", "LinLink.v")])
   errs = rep.obligations(info, "coqc -Q coq/theories QV coq/theories/Properties/C01.v (Print Assumptions under every theorem)")
   for e in errs:
     rep.violation("obligation-" + os.path.basename(e["file"]), "proof obligation no longer checks: " + e["error"][-400:],
